@@ -4,6 +4,7 @@
 #pragma once
 #include "common.hpp"
 #include "c01.hpp"
+#include "c02.hpp"
 #include "c04.hpp"
 #include "c05.hpp"
 #include "c06.hpp"
